@@ -57,6 +57,9 @@ def run(P, item):
             xs = arg_tuple(ctx, f'f{i}', arity)
             for prev in fills: ctx.add(b_not(tuple_eq(xs, prev)))
             wrap.call_subject(I, ctx, subj, xs, 0); fills.append(xs)
+        pre_keys = []
+        if log:
+            st0, q0, _c0 = cache_parts(P, log[-1]['cache'], log[-1]['ty'], 0); pre_keys = [k for k, v in st0.items]
         target = item.get('target', 'new')
         if target == 'fill' and fills: x = fills[0]          # a call for stored arguments: reaches the body only if invalidate_on says stale
         else:
@@ -109,7 +112,7 @@ def run(P, item):
         after = dict(keys=[k for k, v in store.items], vals=[v for k, v in store.items], queue=list(queue.items), held=[l.name for l in all_locks(I) if l.state != 0],
                      execs=[e for e in ctx.events[ne2:] if e[0] == 'exec'])
         key = g0[-1]['key']
-        return dict(subj=subj, x=x, fills=fills, at_susp=at_susp, mid=mid, after=after, fin=fin, other=other, inter_execs=inter_execs, key=key, pred=pred, pre_keys=[g for g in []])
+        return dict(subj=subj, x=x, fills=fills, at_susp=at_susp, mid=mid, after=after, fin=fin, other=other, inter_execs=inter_execs, key=key, pred=pred, pre_keys=pre_keys)
 
     outs, st = explore(run_path, seed=item.get('seed', 0), timeout_ms=20000)
     for o in outs:
@@ -130,6 +133,10 @@ def run(P, item):
         present = b_or(*[simp(str_eq(k, d['key'])) for k in s_['keys']]) if s_['keys'] else False
         if item.get('target', 'new') != 'fill': add('no entry exists for a result that has not been produced yet', b_not(present))
         add('the body has not produced its result at the suspension point', s_['execs'] == 0)
+        if it['ttl'] is None and d['pre_keys']:
+            # "as if that call had only performed its initial lookup": a lookup (hit, stale hit or miss) removes nothing when nothing can expire
+            add('a suspended call has removed no entry from the cache (it has only performed its lookup)',
+                b_and(*[(b_or(*[simp(str_eq(pk, k)) for k in s_['keys']]) if s_['keys'] else False) for pk in d['pre_keys']]))
         add('no lock is left held by the work done while the call was suspended', len(d['mid']['held']) == 0)
         if end == 'drop':
             add('dropping the suspended call changes neither store nor queue', len(d['after']['keys']) == len(d['mid']['keys']) and len(d['after']['queue']) == len(d['mid']['queue'])
@@ -173,7 +180,7 @@ def run(P, item):
                 res['failed'].append(dict(prop=prop, clause=clause, kind='susp', cfg=f"SUSP/{name}", op=f"suspend@{susp_at}/{inter}/{end}",
                                           witness=dict(target=item.get('target', 'new'), subject=name, suspend_at=susp_at, inter=inter, end=end, nfill=nfill, fills=[[ev(x) for x in t] for t in d['fills']], x=[ev(x) for x in d['x']],
                                                        pred=[(cn, render_key(k, ev), ev(b)) for cn, k, b in d['pred'].memo],
-                                                       predicted=dict(keys_mid=[render_key(k, ev) for k in d['mid']['keys']], keys_after=[render_key(k, ev) for k in d['after']['keys']], inter_execs=d['inter_execs'], end_execs=len(d['after']['execs'])))))
+                                                       predicted=dict(keys_before=[render_key(k, ev) for k in d['pre_keys']], keys_mid=[render_key(k, ev) for k in d['mid']['keys']], keys_after=[render_key(k, ev) for k in d['after']['keys']], inter_execs=d['inter_execs'], end_execs=len(d['after']['execs'])))))
     return dict(paths=res['paths'], claims=res['claims'], failed=res['failed'], classes=sorted(res['classes']), funcs=sorted(res['funcs']), builtins=sorted(res['builtins']),
                 checks=st['checks'], solver_s=st['solver_s'], blocks=st['blocks'], infeasible=st['infeasible'], tag=f"SUSP {name} fill={nfill} {item.get('target', 'new')} suspend@gate{susp_at} {inter} then {end}")
 
@@ -222,6 +229,9 @@ def replay(f, w):
     dev = None
     if 'held' in cl or 'guard' in cl: dev = None                       # only a native block confirms these (handled above)
     elif 'no entry exists' in cl: dev = f'an entry for the pending result ({kx}) exists at the suspension point' if keyl and kx in keyl[0] else None
+    elif 'has removed no entry' in cl:
+        lost = [k for k in w.get('predicted', {}).get('keys_before', []) if k not in (keyl[0] if keyl else [])]
+        dev = f'entries {lost} stored before the call are gone while it is suspended in its body (keys at the suspension point: {sorted(keyl[0])})' if lost else None
     elif 'has not produced' in cl: dev = f'the body ran {e_susp - e_fill} time(s) before the suspension point was reached' if e_susp != e_fill and w.get('target') != 'fill' else None
     elif 'changes neither store nor queue' in cl: dev = f'keys before the drop {sorted(keyl[1])}, after {sorted(keyl[2])}' if sorted(keyl[1]) != sorted(keyl[2]) else None
     elif 'never runs the body' in cl: dev = f'the body ran {e_end - e_mid} time(s) after the drop' if e_end != e_mid else None
